@@ -98,6 +98,25 @@ Theorem C34_check_sound : forall c q kd body bo script,
 Proof. exact Proof.C34.check_sound. Qed.
 Print Assumptions C34_check_sound.
 
+(* ... and the oracle means what the clauses say: a trace it accepts has, in every observed
+   round trip, the caller's method/URL/headers and the requested prefix of the complete original
+   body; an accepted answer only in the last round trip; success only as the accepted answer
+   to the last round trip; and no more attempts / NextBackOff calls than the backoff allowed *)
+Theorem C34_check_complete : forall c q kd body bo script os res nb,
+  q_valid q = true ->
+  C34_check c q kd body bo script os res nb = true ->
+  (forall i o, nth_error os i = Some o ->
+     o_method o = q_method q /\ o_url o = q_url q /\ o_hdrs o = q_hdrs q /\ o_extra_same o = true /\
+     o_read o = take_opt (r_read (nth i script default_rt)) (body0 kd body) /\
+     (forall code, r_out (nth i script default_rt) = Some code -> memN code (c_accepted c) = true ->
+                   length os = S i)) /\
+  (forall code, res = ROk code ->
+     exists n, length os = S n /\ r_out (nth n script default_rt) = Some code /\
+               memN code (c_accepted c) = true) /\
+  (count_primary c os <= S (go_prefix bo))%nat /\ (N.to_nat nb <= S (go_prefix bo))%nat.
+Proof. exact Proof.C34.check_complete. Qed.
+Print Assumptions C34_check_complete.
+
 (* ---- the pinned code (send_old): each clause is violated; witnesses are harness seed cases *)
 Theorem C34_stream_body_refuted_old :
   exists c q body bo script ts t nb,
